@@ -1,0 +1,45 @@
+//go:build verif
+
+package nets
+
+// Contracts for the verification framework in /verif (comment-only; see /verif/DESIGN.md).
+
+//@ pure be32(ip []byte, k int) int = ip[k]*16777216 + ip[k+1]*65536 + ip[k+2]*256 + ip[k+3]
+//@ pure rec val(ip []byte) int = len(ip) == 16 ? be32(ip, 12) : (len(ip) == 4 ? be32(ip, 0) : 0)
+//@ pure wfRange(r IPRange) bool = (len(r.First) == 4 || len(r.First) == 16) && (len(r.Last) == 4 || len(r.Last) == 16) && val(r.First) <= val(r.Last)
+
+//@ func [C20,C18] IPToInt
+//@   ensures [C20] result == val(ip)
+//@   modifies nothing
+
+//@ func [C20,C18] IntToIP
+//@   ensures [C20] len(result) == 4 && val(result) == i
+//@   ensures fresh(result)
+//@   modifies fresh elemsof(byte)
+
+//@ func [C20,C18] (IPRange).Size
+//@   requires wfRange(ipr)
+//@   ensures [C20] val(ipr.Last) - val(ipr.First) + 1 < 4294967296 ==> result == val(ipr.Last) - val(ipr.First) + 1
+//@   modifies nothing
+
+//@ func [C20,C18] (IPRange).Contains
+//@   ensures [C20] result <==> (val(ipr.First) <= val(ip) && val(ip) <= val(ipr.Last))
+//@   modifies nothing
+
+//@ func [C20,C18] IPtoIPRange
+//@   ensures [C20] result.First == ip && result.Last == ip
+//@   modifies nothing
+
+//@ pure rec count(rs []IPRange, n int) int = n <= 0 ? 0 : count(rs, n-1) + (val(rs[n-1].Last) - val(rs[n-1].First) + 1)
+//@ pure sortedGap(rs []IPRange) bool = forall i int :: 1 <= i && i < len(rs) ==> val(rs[i].First) > val(rs[i-1].Last) + 1
+//@ pure wfRanges(rs []IPRange) bool = (forall i int :: 0 <= i && i < len(rs) ==> wfRange(rs[i])) && sortedGap(rs)
+
+// Size equals the number of addresses for every well-formed range list that does not span the
+// whole 32-bit space (the property excludes 0.0.0.0/0, whose size does not fit the counter).
+//@ func [C20,C18] (SparseSubnet).Size
+//@   requires wfRanges(subnet.IPRanges)
+//@   requires forall i int :: 0 <= i && i < len(subnet.IPRanges) ==> val(subnet.IPRanges[i].Last) - val(subnet.IPRanges[0].First) + 1 < 4294967296
+//@   ensures [C20] result == count(subnet.IPRanges, len(subnet.IPRanges))
+//@   modifies nothing
+//@   loop 0 invariant size == count(subnet.IPRanges, idx)
+//@   loop 0 invariant idx > 0 ==> count(subnet.IPRanges, idx) <= val(subnet.IPRanges[idx-1].Last) - val(subnet.IPRanges[0].First) + 1
